@@ -284,6 +284,9 @@ def run(chk, parts=('L1', 'L2', 'L2b', 'L3')):
                 else:
                     chk.ok(PREFIX + '-L2b', (where, tgt, n['l']), sample='%s: %s <- %s' % (where, tgt, T.show(val)))
     chk.floor('column computations', nb, 8)
+    # ---- L4 indentation accounting
+    if 'L2' in parts:
+        l4(chk, by)
     # ---- L3 indent / dedent pairing
     if 'L3' in parts:
         l3(chk, fns)
@@ -401,3 +404,107 @@ def enclosing_branch(body, target):
         if n.get('k') == 'Block' and n is not body and any(x is target for x in T.walk(n)):
             best = n
     return best
+
+
+def lin(e, env, depth=0):
+    """linear form {var: coef, '#': const} of an integer expression over locals; None if not linear"""
+    e = T.peel(e)
+    k = e.get('k')
+    if depth > 8:
+        return None
+    if k == 'Cast':
+        return lin(e['x'], env, depth + 1)
+    v = T.lit_int(e)
+    if v is not None:
+        return {'#': v}
+    if k == 'Local':
+        if e['n'] in env:
+            r = lin(env[e['n']], {kk: vv for kk, vv in env.items() if kk != e['n']}, depth + 1)
+            if r is not None:
+                return r
+        return {e['n']: 1}
+    if k == 'MCall' and e['n'] == 'len' and not e['a']:
+        return {T.show(e['r']) + '.len()': 1}
+    if k == 'MCall' and e['n'] in ('saturating_sub', 'wrapping_sub') and len(e['a']) == 1:
+        a, b = lin(e['r'], env, depth + 1), lin(e['a'][0], env, depth + 1)
+        if a is None or b is None:
+            return None
+        return add(a, b, -1)
+    if k == 'Binary' and e['op'] in ('+', '-'):
+        a, b = lin(e['x'], env, depth + 1), lin(e['y'], env, depth + 1)
+        if a is None or b is None:
+            return None
+        return add(a, b, 1 if e['op'] == '+' else -1)
+    return None
+
+
+def add(a, b, sign):
+    out = dict(a)
+    for kk, vv in b.items():
+        out[kk] = out.get(kk, 0) + sign * vv
+    return {kk: vv for kk, vv in out.items() if vv != 0}
+
+
+def text_len(e, env):
+    """linear form of the character length of a token-text expression: "" -> 0, " ".repeat(n) -> n, &spaces -> spaces.len()"""
+    e = T.peel(e)
+    if e.get('k') == 'Lit' and 'str' in (e.get('v') or {}):
+        return {'#': len(e['v']['str'])} if e['v']['str'] else {}
+    if e.get('k') == 'MCall' and e['n'] == 'repeat' and T.peel(e['r']).get('k') == 'Lit' and len((T.peel(e['r']).get('v') or {}).get('str', '')) == 1:
+        return lin(e['a'][0], env)
+    if e.get('k') == 'Local':
+        return {e['n'] + '.len()': 1}
+    return None
+
+
+def l4(chk, by):
+    rule = PREFIX + '-L4'
+    chk.rule(rule, 'indentation accounting: in every arm of `match sum_indent.cmp(&spaces_len)` of Lexer::lex_indent_dedent the column advance '
+                   '(col_token_starts increments + lengths of emitted token texts) equals the characters that stay consumed (spaces_len minus what is given back through `cursor -=`); '
+                   'decided by linear arithmetic over the locals')
+    f = by.get('Lexer::lex_indent_dedent')
+    if not chk.need(f is not None, 'Lexer::lex_indent_dedent not found'):
+        return
+    env = VS.let_env(f)
+    ms = [n for n in T.walk(f['body']) if n.get('k') == 'Match' and n.get('src') == 'Normal' and 'cmp(' in T.show(n['x'])]
+    if not chk.need(len(ms) == 1, 'lex_indent_dedent: the `sum_indent.cmp(&spaces_len)` match was not found'):
+        return
+    consumed_total = lin({'k': 'Local', 'n': 'spaces_len'}, env)
+    for arm in ms[0]['arms']:
+        which = '|'.join(sorted(T.last_seg(v) for v in T.pat_variants(arm['pat'])))
+        adv, back = {}, {}
+        ok = True
+        for n in T.walk(arm['b']):
+            if n.get('k') == 'AssignOp' and n['op'] in ('+', '+=') and 'col_token_starts' in T.show(n['x']):
+                l = lin(n['y'], env)
+                ok &= l is not None
+                adv = add(adv, l or {}, 1)
+            if n.get('k') == 'AssignOp' and n['op'] in ('-', '-=') and T.show(n['x']).endswith('cursor'):
+                l = lin(n['y'], env)
+                ok &= l is not None
+                back = add(back, l or {}, 1)
+        # emitted tokens: a path emits at most one token; take the maximum over alternatives by requiring all alternatives to agree
+        lens = []
+        for c in T.calls(arm['b']):
+            if c.get('k') == 'MCall' and c['n'] in ('emit_singleline_token', 'emit_multiline_token') and len(c['a']) >= 2:
+                tl = text_len(c['a'][-1], env)
+                ok &= tl is not None
+                lens.append(tl or {})
+        if not ok:
+            chk.lost.append('lex_indent_dedent: arm %s contains a non-linear column / cursor expression' % which)
+            continue
+        distinct = [dict(t) for t in {tuple(sorted(l.items())) for l in lens}] or [{}]
+        for tl in distinct:
+            total = add(adv, tl, 1)
+            want = add(consumed_total, back, -1)
+            if total == want:
+                chk.ok(rule, which, sample='%s: advance %s == consumed %s' % (which, fmt(total), fmt(want)))
+            else:
+                chk.bad(rule, 'Lexer::lex_indent_dedent', 'arm:%s' % which, 'in the %s arm the column advances by %s while %s character(s) stay consumed: every token on the first line of a '
+                        'nested block is reported at the wrong column' % (which, fmt(total), fmt(want)), LEX, arm['l'])
+
+
+def fmt(l):
+    if not l:
+        return '0'
+    return ' + '.join(('%s' % k if v == 1 else '%d*%s' % (v, k)) if k != '#' else str(v) for k, v in sorted(l.items())).replace('+ -', '- ')
